@@ -97,6 +97,13 @@ def _explore(world, runner, max_paths=4000):
         except RecursionError as e:
             pr.status = 'unsupported'
             pr.detail = 'recursion depth'
+        except (TypeError, AttributeError, KeyError, IndexError, AssertionError, ValueError, NotImplementedError, z3.Z3Exception) as e:
+            # the engine (or a contract's spec code) met a value it has no rule for: the path is undecided,
+            # never a verdict; on the unchanged tree this shows up as exit 2
+            import traceback as _tb
+            last = _tb.extract_tb(e.__traceback__)[-1]
+            pr.status = 'unsupported'
+            pr.detail = 'engine could not interpret this path: %s: %s (%s:%d)' % (type(e).__name__, str(e)[:120], last.filename.split('/')[-1], last.lineno)
         pr.obligations = ctx.obligations
         pr.trace = list(ctx.trace)
         pr.assumptions = ctx.assumptions
